@@ -111,10 +111,14 @@ func vsPrunerStore(s *verifsim.Sim, dir string) {
 
 	ctl := &verifsim.FSControl{}
 	verifsim.InstallFS(ctl)
-	failRemove := 0
+	failRemove, skipRemove := 0, 0
 	if faulty {
 		ctl.Fail = func(kind, path string) error {
 			if kind == "remove" && failRemove > 0 {
+				if skipRemove > 0 {
+					skipRemove-- // the removal is interrupted part-way: the first file(s) do go
+					return nil
+				}
 				failRemove--
 				s.Fault("remove-eio")
 				return verifsim.ErrIO
@@ -353,6 +357,7 @@ func vsPrunerStore(s *verifsim.Sim, dir string) {
 		case 3:
 			if faulty {
 				failRemove = 1 + s.Choose(4, "failing_removes")
+				skipRemove = s.Choose(3, "removes_before_the_failure")
 			}
 		case 4: // graceful restart in the same mode
 			stop(false)
@@ -397,7 +402,7 @@ func vsPrunerStore(s *verifsim.Sim, dir string) {
 		return
 	}
 	// fault-free continuation: enough cycles for everything old to go
-	failRemove = 0
+	failRemove, skipRemove = 0, 0
 	ctl.Fail = nil
 	for i := 0; i < 10; i++ {
 		s.Stall(cycle + time.Second)
@@ -418,7 +423,12 @@ func vsPrunerStore(s *verifsim.Sim, dir string) {
 		shared := vsSharedHashAny(blocks, b)
 		byHash, _ := st.HasByHash(ctx, b.sq.Roots.Hash())
 		if !archival && !has && byHash && !shared && !vsEmpty(b) {
-			s.Violate("c14-old-blocks-never-pruned", "files-left-behind", "pruned node: height %d is older than window %v + block time behind head %d; its height link is gone but the block's files are still in the store after the fault-free continuation (removal recorded=%v)", h, window, head.Height(), b.removed)
+			sig := "files-left-behind"
+			if wrongMode[h] {
+				// the height was handed to the archival pruner during a refused start in archival mode
+				sig = "handed to the archival pruner during a refused archival start"
+			}
+			s.Violate("c14-old-blocks-never-pruned", sig, "pruned node: height %d is older than window %v + block time behind head %d; its height link is gone but the block's files are still in the store after the fault-free continuation (removal recorded=%v)", h, window, head.Height(), b.removed)
 			return
 		}
 		switch {
